@@ -127,6 +127,9 @@ type AOpaque struct {
 type AFunc struct {
 	fn   *ssa.Function
 	recv AV // bound receiver of a method value (x.M), nil otherwise
+	// free: the values of the variables a function literal captured, in the order of fn.FreeVars
+	// (pointers to the enclosing function's cells); nil for plain functions
+	free []AV
 }
 
 // AFuncSet is "one of these known functions": the value of a function-typed variable assigned on
